@@ -101,7 +101,10 @@ def finish(ctx, mod, lean_info):
     ev = {'property_id': pid, 'tier': ctx.tier, 'seed': ctx.seed, 'level': 'proof', 'coverage': cov,
           'assumptions': getattr(mod, 'ASSUMPTIONS', []) + ctx.assumptions + ctx.notes,
           'wall_s': round(ctx.elapsed(), 2), 'violations': violations}
-    C.write_json(os.path.join(C.EVID, pid + '.json'), ev)
+    # a development run without the Lean phase (VERIF_SKIP_LEAN=1, never a registered command) must not overwrite the
+    # evidence of a registered run
+    evdir = C.EVID if os.environ.get('VERIF_SKIP_LEAN') != '1' else os.path.join(C.WORK, 'dev-evidence')
+    C.write_json(os.path.join(evdir, pid + '.json'), ev)
     for l in lines:
         print(l, flush=True)
     print('[%s %s seed=%d] obligations %d/%d, cases %d (distinct %d), disagreements %d, known %d, %.0f s'
@@ -198,6 +201,10 @@ def main(argv):
         return 2
     if argv[0] == '--setup':
         return setup()
+    if argv[0] == '--hashes':
+        from harness import anchorcov
+        print(anchorcov.write_baseline())
+        return 0
     pid = argv[0]
     if pid not in ALL:
         print('unknown property', pid)
@@ -215,6 +222,18 @@ def main(argv):
         print('tier must be quick or thorough')
         return 2
     ctx = C.Ctx(pid, tier, seed)
+    try:
+        from harness import anchorcov
+        ch = anchorcov.changed_functions(pid)
+        if ch:
+            ctx.sample_factor = 3
+            ctx.cov['source_guard'] = {'changed_anchored_functions': ch[:40], 'quick_sample_factor': 3}
+            print('[%s] %d anchored function(s) differ from the recorded shape (%s ...): the quick tier draws 3x the cases'
+                  % (pid, len(ch), ch[0]), flush=True)
+        else:
+            ctx.cov['source_guard'] = {'changed_anchored_functions': [], 'quick_sample_factor': 1}
+    except Exception as e:     # noqa  (a guard, never a reason to fail a check)
+        ctx.cov['source_guard'] = {'error': str(e)[:200]}
     try:
         if os.environ.get('VERIF_SKIP_LEAN') == '1':
             # development aid only (never used by a registered command): harness part alone
